@@ -65,10 +65,20 @@ func implFillItem(t []string) string {
 		}
 		var next ast.ItemNode
 		before := envSnapshot(env)
+		tmplBefore := showItem(cur)
 		pan, _ := safely(func() { next = cur.FillVariables(env) })
 		mut := ""
 		if envSnapshot(env) != before {
 			mut = " ARGMUT" // the caller's fill-in table was written to
+		}
+		if tmplAfter := showItem(cur); tmplAfter != tmplBefore {
+			mut += " TEMPLATE-CHANGED" // the template that was filled is no longer what it was
+		} else if !pan {
+			// ... and filling the same template again gives the same item
+			var again ast.ItemNode
+			if p2, _ := safely(func() { again = cur.FillVariables(env) }); p2 || showItem(again) != showItem(next) {
+				mut += " SECOND-FILL-DIFFERS"
+			}
 		}
 		if pan {
 			outs = append(outs, "PANIC"+mut)
@@ -327,6 +337,40 @@ func fillOutOfDomain(c *Ctx) []Case {
 			want, _ := implItem(direct)
 			if got := lastField(impl); got != want {
 				cs.Oracle = "a fill stores or refuses differently from the factory: " + firstDiff(got, want)
+			}
+		}
+		out = append(out, cs)
+	}
+	// a variable renamed onto the name of a sibling in the same node (which stays): refused as
+	// the factory refuses a repeated name; renamed onto a sibling that is replaced in the same
+	// call: accepted
+	for i := 0; i < c.N(400); i++ {
+		names := &nameGen{}
+		k := arrayKinds[c.R.Intn(len(arrayKinds))]
+		n := genArray(c.R, &GenOpt{MaxSlots: 5, PVar: 0.7, names: names}, k.k, k.w)
+		var vars []varRef
+		collectVars(n, &vars)
+		if len(vars) < 2 {
+			continue
+		}
+		a, b := vars[c.R.Intn(len(vars))], vars[c.R.Intn(len(vars))]
+		asg := map[string]FillVal{a.name: {Tok: strTok(b.name), Slot: &Slot{IsVar: true, Name: b.name}}}
+		keys := []string{a.name}
+		if c.R.Intn(3) == 0 && a.name != b.name {
+			asg[b.name] = genFillVal(c.R, n, 0, nil)
+			keys = append(keys, b.name)
+		}
+		tmpl := n
+		if c.R.Intn(2) == 0 {
+			tmpl = &Node{Kind: "L", Slots: []Slot{{Child: &Node{Kind: "A", Str: []byte("x")}}, {Child: n}}}
+		}
+		op := "fillitem " + tmpl.Proto() + " | " + envTokens(asg, keys)
+		impl := implEval(op)
+		cs := Case{Op: op, Impl: impl, Decisive: true, Nontrivial: true, Tags: []string{"sibling-rename:" + map[bool]string{true: "refused", false: "stored"}[lastField(impl) == "PANIC"]}}.fields(itemKeys)
+		if direct := substitute(tmpl, asg); direct != nil {
+			want, _ := implItem(direct)
+			if got := lastField(impl); got != want {
+				cs.Oracle = "a renaming fill stores or refuses differently from the factory: " + firstDiff(got, want)
 			}
 		}
 		out = append(out, cs)
